@@ -1375,6 +1375,8 @@ fn worlds(thorough: bool) -> Vec<W> {
     });
     // adaptive fee: small saturation range (3 groups): the skip logic runs on every crossing swap
     v.push(W { built: build_af_world(&af_spec("c20-af-g64-sat3", 64, 30_000, 50_000, 5000, None)), kind: Kind::Af, fees: Fees::default(), depth: (2, 3), weight: 2.0 });
+    // strongest control factor: the total rate passes 65 535 four groups from the reference and reaches the 10 % hard limit at five
+    v.push(W { built: build_af_world(&af_spec("c20-af-g64-hot", 64, 350_000, 99_999, 5000, None)), kind: Kind::Af, fees: Fees::default(), depth: (2, 3), weight: 1.0 });
     if thorough {
         // fine groups, wide core range, strong decay
         v.push(W { built: build_af_world(&af_spec("c20-af-g16-wide", 16, 350_000, 10_000, 9000, None)), kind: Kind::Af, fees: Fees::default(), depth: (2, 3), weight: 1.0 });
